@@ -18,6 +18,7 @@ WORDS = ["alpha", "bravo", "dry_run", "level2", "out_dir", "jobs", "verbose_mode
 VARIANTS = ["Alpha", "DryRun", "Level2", "OutDir", "Jobs", "VerboseMode", "Input", "NoColor",
             "TargetDir", "Kilo", "Lima", "MikeNovember", "Zulu", "MaxZone", "QuietX", "YankeeZ"]
 LETTERS = "abcdefgijklmnopqrstuwxyz"
+NONASCII_LETTERS = ["ß", "ε", "λ", "é", "я"]
 # Rust keywords usable as raw identifiers: `r#type: T` is the option `--type` / `-t`
 RAW = ["type", "loop", "match", "move", "where"]
 
@@ -68,6 +69,12 @@ class Names:
         raise RuntimeError("out of identifiers")
 
     def short_ident(self):
+        # a one-character name is a short name, whatever the character (`ε: f64`)
+        if self.rng.random() < 0.3:
+            for c in self.rng.sample(NONASCII_LETTERS, len(NONASCII_LETTERS)):
+                if c not in self.idents and c not in self.used_short:
+                    self.idents.add(c)
+                    return c
         for c in LETTERS:
             if c not in self.idents and c not in self.used_short:
                 self.idents.add(c)
